@@ -5,9 +5,13 @@ Decides the structural, necessary part of the property (not the numbers):
 OCC-PROTOCOL  every attribute used on an element of Scenario.obstacles / dynamic_obstacles / ... (typed by the getter
               annotations) is defined by every class the element may have, or guarded by hasattr/isinstance
 OCC-SETTER    in the anchored classes a property setter stores an attribute its getter loads
-OCC-PLACE     the exact occupancy is shape.rotate_translate_local(state.position, state.orientation); derived
-              headings are atan2(velocity_y, velocity); initial occupancy and per-state occupancies are computed
-              from the state they are stored / stamped with; static and environment occupancies ignore the time
+OCC-PLACE     occupancy_shape_from_state, evaluated (c04ev.place_rules): exact states give
+              shape.rotate_translate_local(state.position, state.orientation); uncertain states a rectangle centred
+              at the position, oriented at the reference orientation, measured in the reference frame, whose
+              extracted length / width terms dominate what enclosing every admissible placement needs (compared on
+              sample assignments); Polygon.rotate_translate_local turns about the polygon's centre; derived headings
+              are atan2(velocity_y, velocity); the initial_state setter (evaluated) and the per-state occupancies are
+              computed from the state they are stored / stamped with; static / environment occupancies ignore time
 OCC-DISPATCH  DynamicObstacle.occupancy_at_time / state_at_time: initial answer exactly at the initial time step,
               delegation to the prediction only for later steps with a prediction, same time step passed on,
               None otherwise; Prediction.occupancy_at_time_step returns an element only under a time-step match;
